@@ -1,4 +1,5 @@
 import LcmProofs.Layout
+import LcmProps.C01
 import LcmProps.Examples
 namespace Lcm
 
@@ -65,6 +66,33 @@ theorem C05_entry (m : Model) (P : Params) (t : Nat) (ht : t < m.nPeriods)
       (fun x => valueOf (objAt m P g t next ((feasOf m P t)[k]) dIdx xIdx x.1 x.2.1 x.2.2))
       (((solve m P true).getD t default).get (k :: (dIdx ++ xIdx))) :=
   solve_entry_isMax_restricted m P t ht hsparse k hk dIdx xIdx hd hx
+
+/-- **the layout contract in one sentence**: the entry at index `(k, dIdx, xIdx)` of the period-`t` array is the
+Bellman value - by plain enumeration, `specV` - *of the state the contract assigns to that index*: the `k`-th feasible
+combination of the filter-restricted states (row-major, declaration order) together with the `dIdx`-th labels of the
+unrestricted discrete states and the `xIdx`-th nodes of the continuous states (declaration order). A transposed,
+mis-ordered or shifted layout would make this false for some utility. -/
+theorem C05_entry_is_value_of_the_state_at_that_index (m : Model) (P : Params) (t : Nat) (ht : t < m.nPeriods)
+    (hsparse : (!((groups m).sS.isEmpty && (groups m).sC.isEmpty)) = true)
+    (k : Nat) (hk : k < (feasOf m P t).length) (dIdx xIdx : List Nat)
+    (hd : InBounds (sizes (groups m).dS) dIdx) (hx : InBounds (sizes (cStateGrids (groups m))) xIdx)
+    (hnd : ((m.states ++ m.choices).map (·.1)).Nodup) :
+    ((solve m P true).getD t default).get (k :: (dIdx ++ xIdx))
+      = specV m P (groups m) t (nextOf m P (solve m P true) t)
+          ((feasOf m P t)[k] ++ pickAt (groups m).dS dIdx ++ pickAt (cStateGrids (groups m)) xIdx) :=
+  C01_entry_eq_spec_restricted m P t ht hsparse k hk dIdx xIdx hd hx hnd
+
+theorem C05_entry_is_value_of_the_state_at_that_index_unrestricted (m : Model) (P : Params) (t : Nat) (ht : t < m.nPeriods)
+    (hdense : (!((groups m).sS.isEmpty && (groups m).sC.isEmpty)) = false)
+    (dIdx xIdx : List Nat)
+    (hd : InBounds (sizes (groups m).dS) dIdx) (hx : InBounds (sizes (cStateGrids (groups m))) xIdx)
+    (hnd : ((m.states ++ m.choices).map (·.1)).Nodup)
+    (hfs : allTrue m P (toEnv (pickAt (groups m).dS dIdx ++ pickAt (cStateGrids (groups m)) xIdx) ++ periodEnv t)
+      (filterNames m) = some true) :
+    ((solve m P true).getD t default).get (dIdx ++ xIdx)
+      = specV m P (groups m) t (nextOf m P (solve m P true) t)
+          (pickAt (groups m).dS dIdx ++ pickAt (cStateGrids (groups m)) xIdx) :=
+  C01_entry_eq_spec_unrestricted m P t ht hdense dIdx xIdx hd hx hnd hfs
 
 -- non-vacuity: shapes of the F1 witness change with the period ([3] then [2])
 #guard ((solve Ex.f1Model Ex.f1Params).map (·.shape)) = [[3], [2]]
